@@ -62,6 +62,7 @@ RunPlan(st0, plan, rd, mode) ==
      ELSE LET c == IF s.collect THEN Collect(acc.st.pool, acc.st.mpi, acc.st.rounds, rd, acc.off, mode)
                    ELSE [ok |-> TRUE, pool |-> acc.st.pool, mpi |-> acc.st.mpi, used |-> 0, dis |-> FALSE]
               word == CASE s.part = "whole" -> c.pool [] s.part = "lo" -> Lo32(c.pool) [] s.part = "hi" -> Hi32(c.pool)
+                        [] s.part = "drop" -> c.pool                  \* nothing is taken from it (take = 0)
           IN [ok |-> c.ok, off |-> acc.off + c.used, dis |-> acc.dis \/ c.dis,
               st |-> [acc.st EXCEPT !.pool = c.pool, !.mpi = c.mpi, !.half = s.pend],
               bytes |-> acc.bytes \o SubSeq(ToBytesLE(word), 1, s.take)],
